@@ -539,7 +539,8 @@ void NifFile::SortGraph(NiNode* root, SortState& sortState) {
 
 			if (isRootNode) {
 				// Reorder shapes on root node if order is provided
-				if (sortState.rootShapeOrder.size() == shapeIndices.size()) {
+				if (sortState.rootShapeOrder.size() == shapeIndices.size()
+					&& std::is_permutation(shapeIndices.begin(), shapeIndices.end(), sortState.rootShapeOrder.begin())) {
 					std::vector<uint32_t> newShapeIndices(shapeIndices.size());
 					for (size_t si = 0; si < sortState.rootShapeOrder.size(); si++) {
 						auto it = find(shapeIndices, sortState.rootShapeOrder[si]);
@@ -580,7 +581,8 @@ void NifFile::SortGraph(NiNode* root, SortState& sortState) {
 
 			if (isRootNode) {
 				// Reorder shapes on root node if order is provided
-				if (sortState.rootShapeOrder.size() == shapeIndices.size()) {
+				if (sortState.rootShapeOrder.size() == shapeIndices.size()
+					&& std::is_permutation(shapeIndices.begin(), shapeIndices.end(), sortState.rootShapeOrder.begin())) {
 					std::vector<uint32_t> newShapeIndices(shapeIndices.size());
 					for (size_t si = 0; si < sortState.rootShapeOrder.size(); si++) {
 						auto it = find(shapeIndices, sortState.rootShapeOrder[si]);
